@@ -193,7 +193,7 @@ def run_schedule(ctx, h, drv, name, lines):
     rc, mo, me = C.run_lines([drv, "c08"], mlines, timeout=60)
     if len(mo) != len(mlines):
         return probs + [("corr", "model answered %d of %d lines %s" % (len(mo), len(mlines), me[-200:]))], r
-    snaps = list(r.snaps)
+    snaps = [r.snaps[k] for k in sorted(r.snaps)]
     for i, (ml, (kind, imp), mod) in enumerate(zip(mlines, expect, mo)):
         ok = True
         if kind == "rc":
@@ -381,7 +381,7 @@ def cut_check(r, meta):
         if not okp:
             probs.append(("cut", "image %d: per-writer prefixes %s exist but no single instant inside the call [%d,%d] yields all of them" % (
                 n, {t: [(i, a, b) for (i, a, b) in c][:4] for t, c in cands.items()}, start, end)))
-        if n < len(r.snaps) and flat(r.snaps[n]) != flat(mm.group(1)):
+        if n in r.snaps and flat(r.snaps[n]) != flat(mm.group(1)):
             probs.append(("snapshot", "image %d differs from the store contents at the final savepoint: image %s snapshot %s" % (n, mm.group(1)[:150], r.snaps[n][:150])))
         if mm.group(2) != "0":
             probs.append(("image-open", "closing the opened image returned %s" % mm.group(2)))
@@ -430,7 +430,7 @@ def explore(ctx, hs, drv, n_sched, n_load, n_tsan, label):
                 ctx.cov["traces_validated_against_impl"] += 1
         replay = dict(case=name, mode="sched", lines=lines, out=(res.lines[:300] if res else []))
         if res is not None and res.f25:
-            ctx.fail(dict(kind="resize-not-performed", stage=res.f25.split("stage=")[1]), dict(replay, marker=res.f25),
+            ctx.fail(dict(kind="resize-not-performed"), dict(replay, marker=res.f25),
                      "file growth acknowledged by the log listener during the main copy but never performed (%s)" % res.f25)
         for kind, text in probs:
             if kind == "diverge" or kind == "corr":
@@ -462,7 +462,7 @@ def explore(ctx, hs, drv, n_sched, n_load, n_tsan, label):
                     continue
                 if rr.f25:
                     ctx.hist("f25-hit")
-                    ctx.fail(dict(kind="resize-not-performed", stage=rr.f25.split("stage=")[1]), dict(replay, marker=rr.f25),
+                    ctx.fail(dict(kind="resize-not-performed"), dict(replay, marker=rr.f25),
                              "file growth acknowledged by the log listener during the main copy but never performed (%s)" % rr.f25)
                     continue
                 if rr.hang:
@@ -505,7 +505,7 @@ def run(ctx):
     if ctx.tier == "quick":
         explore(ctx, hs, drv, 120, 60, 20, "main")
     else:
-        explore(ctx, hs, drv, 1200, 500, 150, "main")
+        explore(ctx, hs, drv, 500, 250, 80, "main")
     if ctx.proof_broken or ctx.corr_broken:
         ctx.log("obligation or correspondence broken: widening the search for a failing input")
         for i in range(3):
